@@ -761,6 +761,13 @@ func genCfg(r *rand.Rand, adversarial bool) rcfg {
 		c.size = int64(1 + r.Intn(300))
 	case x == 2:
 		c.size = int64(1 + r.Intn(20))
+	case x == 3:
+		// exactly the size of the page without any sink content, and one byte either side: nothing is left
+		// for the sink, which must be an error and never a page that silently drops it
+		c.size = int64(base + r.Intn(3) - 1)
+		if c.size < 1 {
+			c.size = 1
+		}
 	case x < 6:
 		c.size = int64(base + r.Intn(nav+maxRow+6)) // tight: around the point where rendering starts to work
 	case x < 17:
